@@ -1110,6 +1110,19 @@ pub fn generate(family: &str, seed: u64, count: usize, emit: &mut dyn FnMut(Stri
                     }
                 }
             }
+            // a backslash inside a multi-byte sequence (valid or not): the text is never valid UTF-8, whatever the
+            // bytes on both sides of the backslash would make together
+            for sq in seqs {
+                for j in 1..sq.len() {
+                    for (pre, post) in [(&b"\""[..], &b"\""[..]), (b"\"\xf0\x9f\x98\x80", b"z\""), (b"a", b""), (b"?", b""), (b"?\\", b""), (b"|", b"|"), (b"#:", b"")] {
+                        let mut t = pre.to_vec(); t.extend_from_slice(&sq[..j]); t.push(b'\\'); t.extend_from_slice(&sq[j..]); t.extend_from_slice(post);
+                        for ro in [R_DEFAULT, R_ELISP] {
+                            emit(parse_op("b", ro, "r:v:4", &t));
+                            if j == 1 { emit(parse_op("i1", ro, "r:d:4", &t)); }
+                        }
+                    }
+                }
+            }
             // an error that stops inside a multi-byte character, then more calls on the same parser (all sources), and
             // malformed escapes followed by more data read through ONE kept iterator object
             for text in ["#é x", "\"\\é\" y", "#\\xé z", "#né w", "?\\^é v", "(a #é) b", "#\\x4g b c", "\"\\x4z;\" b c", "a #\\x4g b c", "(\"\\xg;\") d e"] {
